@@ -220,6 +220,107 @@ def witness_roundtrips(ck, tier, rnd):
             pass
 
 
+def _fp_nonidempotent(base, direction, to_add):
+    """z3, Float64 round-to-nearest: an amount x = base * k + to_add on the statutory grid (k a 20-bit integer, 10000..500000) with
+    R(x) != x, R(u) = base * rnd(u / base) + to_add (the formula of the rounding wrapper, which C10 proves for the real wrapper
+    over the reals).  Such amounts are what a computed column really contains; code that 're-rounds' a supplied column changes
+    them.  Posed for floor / ceil on non-integer bases only (integer bases divide exactly; 'nearest' is not decided by z3 within
+    60 s and is not posed).  -> (verdict, [x], seconds)"""
+    import time
+    import z3
+    from gsv import fpcheck
+    if direction == "nearest" or float(base) == int(base):
+        return "not posed", [], 0.0
+    F, RNE = fpcheck.F64, z3.RNE()
+    mode = {"down": z3.RTN(), "up": z3.RTP()}[direction]
+    b, a = z3.FPVal(float(base), F), z3.FPVal(float(to_add), F)
+    k = z3.BitVec("k", 20)
+    x = z3.fpAdd(RNE, z3.fpMul(RNE, b, z3.fpToFP(RNE, z3.ZeroExt(12, k), F)), a)
+    rx = z3.fpAdd(RNE, z3.fpMul(RNE, b, z3.fpRoundToIntegral(mode, z3.fpDiv(RNE, x, b))), a)
+    s = z3.Solver()
+    s.set("timeout", 90000)
+    s.add(z3.UGE(k, 10000), z3.ULE(k, 500000), z3.Not(z3.fpEQ(rx, x)))
+    t0 = time.time()
+    r = str(s.check())
+    return r, ([fpcheck.fp_to_float(s.model(), x)] if r == "sat" else []), time.time() - t0
+
+
+def _passthrough(args):
+    """real API: a supplied column that overrides rule n is handed to its consumers (and back to the caller) bit for bit"""
+    date, n, vals = args
+    import warnings
+    import numpy
+    from _gettsim.interface import compute_taxes_and_transfers
+    from _gettsim.policy_environment import set_up_policy_environment
+    try:
+        params, funcs = set_up_policy_environment(date)
+        df = witness_population(date)
+        col = [vals[i % len(vals)] for i in range(len(df))]
+        df[n] = col
+        # a consumer that hands its argument back: what it returns is what the graph fed it for column n
+        ns = {}
+        exec(f"def gsv_probe({n}: float) -> float:\n    return {n}\n", ns)   # noqa: S102
+        fl = dict(funcs) if isinstance(funcs, dict) else list(funcs)
+        if isinstance(fl, dict):
+            fl["gsv_probe"] = ns["gsv_probe"]
+        else:
+            fl.append(ns["gsv_probe"])
+        bad = []
+        for rounding in (True, False):
+            with warnings.catch_warnings():
+                warnings.simplefilter("ignore")
+                res = compute_taxes_and_transfers(data=df, params=params, functions=fl, targets=["gsv_probe"], rounding=rounding)
+            got = numpy.asarray(res["gsv_probe"], dtype=float).tolist()
+            if got != col:
+                bad.append(f"{n} supplied as {col} reaches a consumer as {got} (rounding={rounding}): the supplied column is altered before use")
+        return n, bad, None
+    except Exception as e:   # noqa: BLE001
+        return n, [], f"{type(e).__name__}: {e}"[:200]
+
+
+def override_passthrough(ck, tier):
+    """Every rule with a rounding specification in force, overridden by a supplied column holding on-grid amounts on which the
+    rounding formula is NOT idempotent in Float64 (found by z3 per base / direction / offset): the column must come back, and
+    reach its consumers, unchanged.  A thirteenth-round seeded change 'snapped' supplied sub-Euro columns to their grid:
+    0.01 * floor(1043.81 / 0.01) is 1043.80."""
+    import datetime as _dt
+    from _gettsim.policy_environment import set_up_policy_environment
+    dates = [_dt.date(2023, 7, 1)] if tier == "quick" else [_dt.date(2015, 1, 1), _dt.date(2019, 1, 1), _dt.date(2023, 7, 1)]
+    jobs, lemmas = [], {}
+    for date in dates:
+        params, _ = set_up_policy_environment(date)
+        d0 = symdag.Dag(date)
+        for grp, p in params.items():
+            for n, spec in (p.get("rounding", {}) if isinstance(p, dict) else {}).items():
+                if n not in d0.funcs or "base" not in spec or "direction" not in spec:
+                    continue
+                key = (float(spec["base"]), spec["direction"], float(spec.get("to_add_after_rounding", 0) or 0))
+                if key not in lemmas:
+                    lemmas[key] = _fp_nonidempotent(*key)
+                    ck.obligations += 1
+                    ck.queries += 1
+                    ck.solver_time += lemmas[key][2]
+                    if lemmas[key][0] in ("sat", "unsat", "not posed"):
+                        ck.discharged += 1
+                    else:
+                        ck.inconclusive.append(f"Float64 idempotence of rounding {key}: {lemmas[key][0]}")
+                vals = lemmas[key][1] + [key[0] * 104381 + key[2], key[0] * 7 + key[2]]
+                jobs.append((date, n, vals))
+    ck.extra["rounding_formulas_not_idempotent_in_float64"] = [list(k) for k, v in lemmas.items() if v[0] == "sat"]
+    ck.bounds["override_passthrough"] = f"{len(jobs)} overridable rounded rules at {[str(d) for d in dates]}; witness amounts: z3 Float64 model of a non-idempotent on-grid amount (floor/ceil, non-integer base, grid index 10000..500000) plus two fixed on-grid amounts; consumer = a probe rule returning its argument"
+    with multiprocessing.get_context("fork").Pool(common.JOBS) as pool:
+        res = pool.map(_passthrough, jobs, chunksize=1)
+    for (date, n, vals), (_, bad, err) in zip(jobs, res):
+        ck.obligations += 1
+        if err:
+            ck.inconclusive.append(f"passthrough {n} at {date}: {err}")
+            continue
+        if not bad:
+            ck.discharged += 1
+            continue
+        ck.violation(["passthrough", n], f"at {date}: {bad[0]}", {"passthrough": n, "date": str(date), "vals": vals})
+
+
 def run(tier):
     ck = common.Check("C05", tier)
     rnd = random.Random(common.SEED)
@@ -255,6 +356,7 @@ def run(tier):
     c20.group_level_columns(ck, 3 if tier == "quick" else 4, pid="C05")
     warning_witness(ck)
     witness_roundtrips(ck, tier, rnd)
+    override_passthrough(ck, tier)
     ck.bounds = {"overridden_nodes": len(jobs), "dates": [str(d) for d in dates],
                  "outside": "value-level identity of the whole API call (pandas/dags); dtype coercion of the supplied column is C03/C20's subject"}
     ck.rule = "one obligation per overridden node; all other nodes compared pairwise; changed provenance proved under n = def(n)"
@@ -268,6 +370,10 @@ def replay(path):
     if d.get("kind") == "data":
         from gsv.checks import c20
         return c20.replay(path)
+    if "passthrough" in d:
+        n, bad, err = _passthrough((datetime.date.fromisoformat(d["date"]), d["passthrough"], d["vals"]))
+        print(bad or err or "no difference")
+        return 1 if bad else 0
     if "witness" in d:
         n, bad, err = _roundtrip((datetime.date.fromisoformat(d["date"]), d["witness"]))
         print(bad, err)
